@@ -451,6 +451,12 @@ type Hook struct {
 
 // Exchange is one request/response pair as seen on the wire.
 type Exchange struct {
+	// Overrides for handler-level robustness tests (zero values: POST /fdo/101/msg/<type>).
+	Method  string
+	Path    string
+	NoCLen  bool // send without a Content-Length
+	BigCLen bool // announce a Content-Length above the limit
+
 	ReqType   uint8
 	ReqToken  string // Authorization header value (with "Bearer " prefix) or ""
 	ReqBody   []byte
@@ -535,7 +541,20 @@ func ExchangeFrom(req *http.Request) *Exchange {
 
 // Serve performs one exchange against a handler, recovering panics (recorded in x.Panic).
 func Serve(h http.Handler, x *Exchange) {
-	req := httptest.NewRequest(http.MethodPost, fmt.Sprintf("/fdo/101/msg/%d", x.ReqType), bytes.NewReader(x.ReqBody))
+	method, path := http.MethodPost, fmt.Sprintf("/fdo/101/msg/%d", x.ReqType)
+	if x.Method != "" {
+		method = x.Method
+	}
+	if x.Path != "" {
+		path = x.Path
+	}
+	req := httptest.NewRequest(method, path, bytes.NewReader(x.ReqBody))
+	if x.NoCLen {
+		req.ContentLength = -1
+	}
+	if x.BigCLen {
+		req.ContentLength = 1 << 20
+	}
 	req.Header.Set("Content-Type", "application/cbor")
 	if x.ReqToken != "" {
 		req.Header.Set("Authorization", x.ReqToken)
